@@ -15,6 +15,7 @@ This private submodule is *not* intended for importation by downstream callers.
 from beartype.door._cls.doorsuper import TypeHint
 from beartype.door._cls.pep.pep484585.doorpep484585subscripted import (
     SubscriptedTypeHint)
+from beartype._util.cls.pep.clspep3119 import is_type_subclass_or_nominal
 from beartype._util.hint.pep.proposal.pep646.pep484585646tuple import (
     is_hint_pep484585646_tuple_empty,
     is_hint_pep484585646_tuple_variadic_unpacked_if_needed,
@@ -70,7 +71,7 @@ class TupleFixedTypeHint(TypeHint):
         # assume that hint to be subscripted as "typing.Callable[..., Any]" by
         # reducing to a test for compatible origin types.
         if branch._is_args_ignorable:
-            return issubclass(self._origin, branch._origin)
+            return is_type_subclass_or_nominal(self._origin, branch._origin)
         # Else, that hint is subscripted.
         #
         # If that hint is a variable-length tuple, then this fixed-length tuple
